@@ -352,10 +352,36 @@ def run_abrt(cmd, timeout, cwd=None, stdin=None, env=None):
     return rr
 
 
-def hang_frames(rr):
-    if rr.san and rr.san["frames"]:
-        return ">".join(f for f, _ in rr.san["frames"][:3])
-    return "unknown-location"
+def stack_frames(err):
+    """all gama frames (function names, innermost first) of the first stack in a sanitizer / SIGABRT report"""
+    out = []
+    for fm in runner._FRAME.finditer(err or ""):
+        func, path = fm.group(1), fm.group(2)
+        if ("/lib/" in path or "/src/" in path) and "/usr/" not in path and "libsanitizer" not in path:
+            f = re.sub(r"<.*?>", "", re.sub(r"\(.*", "", func)).strip()
+            if not out or out[-1] != f:
+                out.append(f)
+        elif "/harness/" in path or "libc_start" in func:
+            if out:
+                break
+    return out
+
+
+def hang_frames(*rrs):
+    """Where a process was when the watchdog fired.  A loop is interrupted at an arbitrary depth below the function that
+    contains it, so the key is taken from what two samples have in common: the innermost (up to three) frames of the
+    longest common outer part of the stacks."""
+    stacks = [stack_frames(rr.err) for rr in rrs if rr is not None and rr.timeout]
+    stacks = [s for s in stacks if s]
+    if not stacks:
+        return "unknown-location"
+    common = stacks[0]
+    for st in stacks[1:]:
+        k = 0
+        while k < min(len(common), len(st)) and common[-1 - k] == st[-1 - k]:
+            k += 1
+        common = common[len(common) - k:] if k else common[-1:]
+    return ">".join(common[:3])
 
 
 # ------------------------------------------------------------------------------------------------------------
@@ -474,7 +500,7 @@ class Drv:
                 rr1, res1 = self.solo(rec)
             incidents.append((rec, rr, rr1, res1))
             if rr1.timeout:
-                k2 = "hang:parse:%s:%s" % (rec.kind, hang_frames(rr1))
+                k2 = "hang:parse:%s:%s" % (rec.kind, hang_frames(rr, rr1))
                 self.hang_keys[k2] = self.hang_keys.get(k2, 0) + 1
             pending = pending[idx + 1:]
         return results, trans, incidents
@@ -523,10 +549,10 @@ class Drv:
         wit = mkwit("parse", rec.doc, kind=rec.kind, mode=rec.mode, label=label, meta=rec.meta)
         if rr1.timeout:
             o.kind = "hang"
-            key = "hang:parse:%s:%s" % (rec.kind, hang_frames(rr1))
+            key = "hang:parse:%s:%s" % (rec.kind, hang_frames(rr, rr1))
             self.ck.count("watchdog overruns while parsing (each re-run alone until its stack was confirmed twice)")
             self.F.add(key, "parsing a %d-byte document did not finish within %.0f s, in a batch and alone; SIGABRT stack: %s" % (
-                len(rec.doc), PARSE_WATCHDOG, hang_frames(rr1)), wit)
+                len(rec.doc), PARSE_WATCHDOG, ">".join(stack_frames(rr1.err)[:6])), wit)
             return
         key, what = san_key(rr1)
         if key:
@@ -730,9 +756,9 @@ def judge_gl(ck, F, GLr, doc, g, label, expect=None, meta=None, minimise_opts=Tr
     if cls == "timeout":
         g2 = GLr.run(doc, args, stdin=stdin)
         if g2.rr.timeout:
-            F.add("hang:gama-local:%s" % hang_frames(g2.rr),
+            F.add("hang:gama-local:%s" % hang_frames(g.rr, g2.rr),
                   "gama-local did not finish within %.0f s (twice) on a %d-byte input; SIGABRT stack: %s" % (
-                      WATCHDOG, len(doc), hang_frames(g2.rr)), wit(stack=(g2.err or "")[:1500]))
+                      WATCHDOG, len(doc), ">".join(stack_frames(g2.err)[:6])), wit(stack=(g2.err or "")[:1500]))
             return "hang"
         ck.inconc("gama-local watchdog overrun not reproduced")
         return "timeout-once"
@@ -1667,7 +1693,7 @@ def w3_mutations(X):
             step = 1
             for cut in range(0, len(doc), step):
                 recs.append(Rec("t%d_%d" % (bi, cut), "gkf", "lines", doc[:cut], dict(base=name, label=("truncate", "", ""))))
-        for k, (lab, m) in enumerate(mutations(X.seed, name, doc, X.n(260, 4000), X.n(200, 3000), X.n(60, 800))):
+        for k, (lab, m) in enumerate(mutations(X.seed, name, doc, X.n(260, 2500), X.n(200, 2000), X.n(60, 600))):
             recs.append(Rec("m%d_%d" % (bi, k), "gkf", "lines", m, dict(base=name, label=lab)))
     res, recs = run_with_probes(X, recs, "w3 mutations", lambda r: r.meta["label"][1],
                                 lambda r: r.meta["label"][2] if r.meta["label"][0] == "number" else None)
@@ -1818,15 +1844,15 @@ def w5_chunked(X):
     ck, F = X.ck, X.F
     docs = []
     for name, d in base_docs(X, X.n(3, 6), X.n(1, 3)):
-        if len(d) <= X.n(2200, 6000):
+        if len(d) <= X.n(2200, 4000):
             docs.append(("valid:" + name, d))
-    for i in range(X.n(6, 40)):
+    for i in range(X.n(6, 24)):
         d, m = gen_valid(X.seed, 5000 + i)
-        if len(d) <= X.n(3000, 8000):
+        if len(d) <= X.n(3000, 5000):
             docs.append(("generated-valid", d))
     rng = np.random.default_rng([X.seed, 1105])
     base = [d for _, d in docs]
-    for k, d in enumerate(base[:X.n(6, 30)]):
+    for k, d in enumerate(base[:X.n(6, 20)]):
         ms = list(mutations(X.seed + k, "c", d, 14, 6, 6))
         for lab, m in ms:
             if lab[0] == "number" and is_huge(lab[2]) and lab[1] in X.slot_hang:
@@ -1994,9 +2020,10 @@ def w6_options(X):
                 if m and "repo" not in meta:
                     F.add("pipeline:%s:nan-in-%s" % (optkey(args), k), "output %s of a valid survey contains %r" % (k, m.group(0)),
                           mkwit("pipeline", doc, args=args, stdin=stdin, expect="finite"))
-            if "xml" in g.files and len(X.outputs["xml"]) < 60:
+            english = not any(f.startswith(("language=", "encoding=")) for f in feat)     # the readers know gama's English output
+            if english and "xml" in g.files and len(X.outputs["xml"]) < 60:
                 X.outputs["xml"].append(g.files["xml"])
-            if "html" in g.files and len(X.outputs["html"]) < 40:
+            if english and "html" in g.files and len(X.outputs["html"]) < 40:
                 X.outputs["html"].append(g.files["html"])
 
 
@@ -2193,8 +2220,8 @@ def w8_fuzz(X, build_thread):
         ck.count("w8 committed corpus files [%s]" % target, nseed)
         if nseed == 0:
             ck.inconc("no committed corpus for " + target)
-        nj = X.n(5, 16) if kind == "gkf" else X.n(3, 16)
-        runs = X.n(25000, 1200000) if kind == "gkf" else X.n(60000, 3000000)
+        nj = X.n(5, 16) if kind == "gkf" else X.n(3, 8)
+        runs = X.n(25000, 500000) if kind == "gkf" else X.n(60000, 1500000)
         for j in range(nj):
             jobs.append((target, kind, dic, maxlen, exe, seeds, j, runs))
 
@@ -2295,11 +2322,12 @@ def w9_memcheck(X, build_thread):
 
     def frames(err):
         fr = []
-        for m in re.finditer(r"==\d+==\s+(?:at|by) 0x[0-9A-F]+: (.+?) \((?:in )?([^)]*)\)", err):
-            if "/lib/" in m.group(2) or ".cpp" in m.group(2) or ".h:" in m.group(2):
-                if "harness" in m.group(2) or "parsedrv" in m.group(2):
-                    continue
-                fr.append(re.sub(r"\(.*|<.*?>", "", m.group(1)).strip())
+        for m in re.finditer(r"==\d+==\s+(?:at|by) 0x[0-9A-F]+: (.*) \(([^()]+)\)\s*$", err, re.M):
+            func, loc = m.group(1), m.group(2)
+            if not re.search(r"\.(cpp|h):\d+$", loc) or loc.startswith("parsedrv.cpp") or func.startswith(("std::", "__")):
+                continue
+            func = re.sub(r"^\(anonymous namespace\)::", "", func)
+            fr.append(re.sub(r"<.*?>", "", re.sub(r"\(.*", "", func)).strip())
             if len(fr) >= 3:
                 break
         return ">".join(fr)
